@@ -53,13 +53,17 @@ def prepare(repo, only_files=None):
 def _base_cmd():
     return ["cargo", "kani", "-p", "abyssiniandb", "-Z", "function-contracts", "-Z", "stubbing", "--output-format", "terse"]
 
+def _guard(cmd):
+    memkb = int(os.environ.get("VERIF_KANI_MEM_KB", str(10 * 1024 * 1024)))
+    return ["sh", "-c", "ulimit -v %d; exec \"$@\"" % memkb, "sh"] + cmd
+
 def playback(scratch, env, harness, budget=600):
     """CBMC's counterexample for a failed harness, turned by Kani into a #[test] inside the harness module (add-only) and executed
     natively against the crate's real code. Returns dict {test, values, replay_output, reproduces} or {error}."""
     out = {}
     t0 = time.time()
     try:
-        rc, o = sh(_base_cmd() + ["--harness", harness, "-Z", "concrete-playback", "--concrete-playback=inplace"], cwd=scratch, timeout=budget, env=env)
+        rc, o = sh(_guard(_base_cmd() + ["--harness", harness, "-Z", "concrete-playback", "--concrete-playback=inplace"]), cwd=scratch, timeout=budget, env=env)
     except subprocess.TimeoutExpired:
         return {"error": "counterexample extraction timed out after %ds" % budget}
     names = re.findall(r"^\s*- (kani_concrete_playback_\w+)\.?\s*$", o, re.M)
@@ -114,12 +118,16 @@ def run(repo, harnesses, only_files=None, timeout=1800, jobs=8, extra_args=None,
     except LookupError as e:
         return {"_undecided": str(e)}
     try:
-        cmd = _base_cmd() + ["-j", str(jobs)]
+        # resource guards: a change to the crate can make a harness explode (38 GB seen); a harness that hits the per-harness
+        # timeout or the address-space limit is reported as "did not run" (UNDECIDED), never as a violation
+        hto = os.environ.get("VERIF_KANI_HARNESS_TIMEOUT", "900s")
+        cmd = _base_cmd() + ["-j", str(jobs), "-Z", "unstable-options", "--harness-timeout", hto]
         for h in harnesses: cmd += ["--harness", h]
         if extra_args: cmd += extra_args
         env = {"CARGO_NET_OFFLINE": "true", "CARGO_TARGET_DIR": os.path.join(scratch, "target")}
+        shcmd = _guard(cmd)
         try:
-            rc, out = sh(cmd, cwd=scratch, timeout=timeout, env=env)
+            rc, out = sh(shcmd, cwd=scratch, timeout=timeout, env=env)
         except subprocess.TimeoutExpired:
             return {"_undecided": "cargo kani timed out after %ds" % timeout}
         res["_log"] = out
